@@ -297,7 +297,7 @@ def _loads(root: ast.AST) -> T.Set[str]:
     return out
 
 
-def missing_file_rule(ctx, rule: str) -> None:
+def missing_file_rule(ctx, rule: str) -> bool:
     """rewrite.iter_path_patterns_items evaluated on abstract paths: every configured entry is yielded with its own patterns in
     configured order, and a configured file that does not exist raises IOError - also for an entry with an empty pattern list."""
     from sa.model import Abstract, CannotFold, EvalError
@@ -348,7 +348,8 @@ def missing_file_rule(ctx, rule: str) -> None:
                 wrong.append(f"files {list(conf)} (existing: {list(existing)}): {got}, expected {want}")
     except (CannotFold, TypeError, AttributeError, KeyError, ValueError, IndexError) as ex:
         ctx.observe(f"rewrite.iter_path_patterns_items not evaluated ({type(ex).__name__}: {str(ex)[:80]})")
-        return
+        return False
     ctx.check(rule, not wrong, f"iter_path_patterns_items: every configured file in order, IOError for a missing one whatever its patterns ({n} configurations evaluated)",
               "rewrite.iter_path_patterns_items: a configured file that is missing is not an error (or an entry is skipped)", "; ".join(wrong[:2]), loc=fn.loc(),
               witness={"file_patterns": {"CHANGELOG.md": []}})
+    return True
